@@ -66,6 +66,55 @@ Proof.
   apply andb_prop in H. destruct H as [H1 H2]. apply negb_true_iff in H1. rewrite H1. f_equal. now apply IH.
 Qed.
 
+(* C15, "alone or with other files, first or last": the entry at position i of a batch is apply_rules of the
+   i-th file of the command line and nothing else - it is the whole result of running that file alone *)
+Theorem entry_is_single_run files i r : nth_error (main_seq F R f stop files) i = Some r ->
+  exists x, nth_error files i = Some x /\ r = f x /\ main_seq F R f stop [x] = [r].
+Proof.
+  unfold main_seq. revert i. induction files as [|y l IH]; intros i H.
+  - destruct i; discriminate.
+  - cbn [map through_stop] in H. destruct i as [|i].
+    + exists y. assert (E : r = f y) by (destruct (stop (f y)); cbn in H; congruence).
+      subst r. repeat split. cbn. now destruct (stop (f y)).
+    + destruct (stop (f y)) eqn:S.
+      * cbn in H. destruct i; discriminate.
+      * cbn [nth_error] in H. destruct (IH i H) as [x [Hx [Hr Hs]]]. exists x. now repeat split.
+Qed.
+
+(* neighbours: two batches that have the same file at position i report the same entry for it, whatever
+   stands before or after it (as long as both batches get that far) *)
+Corollary neighbours_irrelevant files files' i r r' :
+  nth_error files i = nth_error files' i ->
+  nth_error (main_seq F R f stop files) i = Some r ->
+  nth_error (main_seq F R f stop files') i = Some r' -> r = r'.
+Proof.
+  intros E H H'. destruct (entry_is_single_run _ _ _ H) as [x [Hx [-> _]]].
+  destruct (entry_is_single_run _ _ _ H') as [x' [Hx' [-> _]]]. congruence.
+Qed.
+
+(* outputs appear in command-line order: the batch output is a prefix of the per-file results in that order,
+   and it is cut only directly after a file that asked to stop *)
+Theorem seq_is_prefix_in_order files : exists rest,
+  map f files = main_seq F R f stop files ++ rest /\
+  (rest <> [] -> existsb stop (main_seq F R f stop files) = true).
+Proof.
+  unfold main_seq. induction (map f files) as [|x r [rest [IH1 IH2]]].
+  - exists []. split; [reflexivity|]. intros C; now destruct C.
+  - cbn. destruct (stop x) eqn:S.
+    + exists r. split; [reflexivity|]. intros _. cbn. now rewrite S.
+    + exists rest. split; [cbn; now rewrite <- IH1|]. intros C. cbn. now rewrite S, (IH2 C).
+Qed.
+
+(* the aggregated exit status does not depend on the order in which the results were gathered *)
+Theorem exit_status_perm rs rs' : Permutation rs rs' -> exit_status R status rs = exit_status R status rs'.
+Proof.
+  intros P. unfold exit_status. destruct (existsb status rs) eqn:E1; destruct (existsb status rs') eqn:E2; try reflexivity.
+  - apply existsb_exists in E1. destruct E1 as [x [Hin Hx]].
+    assert (existsb status rs' = true) by (apply existsb_exists; exists x; split; [eapply Permutation_in; eauto|exact Hx]). congruence.
+  - apply existsb_exists in E2. destruct E2 as [x [Hin Hx]].
+    assert (existsb status rs = true) by (apply existsb_exists; exists x; split; [eapply Permutation_in; [symmetry; eauto|eauto]|exact Hx]). congruence.
+Qed.
+
 Theorem exit_status_or rs : exit_status R status rs = true <-> exists x, In x rs /\ status x = true.
 Proof. unfold exit_status. apply existsb_exists. Qed.
 End P.
@@ -74,3 +123,10 @@ Example jobs_example :
   main_pool nat nat (fun x => x * 10) (fun r => Nat.eqb r 30) [1; 2; 3; 4] [3; 0; 2; 1] = [10; 20; 30] /\
   main_seq nat nat (fun x => x * 10) (fun r => Nat.eqb r 30) [1; 2; 3; 4] = [10; 20; 30].
 Proof. vm_compute. split; reflexivity. Qed.
+
+(* non-vacuity of entry_is_single_run / neighbours_irrelevant: position 1 of two different batches *)
+Example entry_example :
+  nth_error (main_seq nat nat (fun x => x * 10) (fun r => Nat.eqb r 30) [1; 2; 3; 4]) 1 = Some 20 /\
+  nth_error (main_seq nat nat (fun x => x * 10) (fun r => Nat.eqb r 30) [7; 2]) 1 = Some 20 /\
+  main_seq nat nat (fun x => x * 10) (fun r => Nat.eqb r 30) [2] = [20].
+Proof. vm_compute. repeat split; reflexivity. Qed.
